@@ -414,4 +414,262 @@ theorem get_remove (fs : FS) (p q : Path) :
     get (applyStep fs (.remove p)) q = if q = p then none else get fs q := by
   simp only [applyStep, get_erase]
 
+/-! ## one entry of the pending table -/
+
+theorem bak_ne_self (p : Path) (n : Nat) : Path.bak p n ≠ p := by
+  intro h
+  have := congrArg sizeOf h
+  simp at this
+  omega
+
+/-- the file system after `write()` has processed one popped entry completely -/
+def entryFs (fs : FS) (e : Entry) : FS :=
+  match entrySteps fs e with
+  | some s => applySteps fs s
+  | none => fs
+
+theorem user_ne_tmp {p : Path} (h : p.isTmp = false) (k : Nat) : Path.tmp k ≠ p := by
+  intro e; subst e; simp [Path.isTmp] at h
+
+theorem entry_write_get {fs : FS} {e : Entry} (hw : e.mode.writeish = true) (hu : e.dest.isTmp = false)
+    {t : Bytes} (ht : get fs (.tmp e.tmp) = some t) (q : Path) :
+    get (entryFs fs e) q =
+      if q = e.dest then some t
+      else if q = .tmp e.tmp then none
+      else if q = .bak e.dest (firstFreeIdx fs e.dest) ∧ get fs e.dest ≠ none then get fs e.dest
+      else get fs q := by
+  have htd : Path.tmp e.tmp ≠ e.dest := user_ne_tmp hu _
+  unfold entryFs entrySteps firstFree
+  simp only [hw, if_true]
+  by_cases hd : get fs e.dest = none
+  · simp only [hd, if_true, ne_eq, not_true_eq_false, if_false, List.nil_append, applySteps, List.foldl_cons,
+      List.foldl_nil]
+    rw [get_move ht]
+    simp
+  · obtain ⟨c, hc⟩ := Option.ne_none_iff_exists'.1 hd
+    have hne : Path.bak e.dest (firstFreeIdx fs e.dest) ≠ e.dest := bak_ne_self _ _
+    simp only [hd, if_false, ne_eq, hne, not_false_eq_true, if_true, List.cons_append, List.nil_append, applySteps,
+      List.foldl_cons, List.foldl_nil]
+    have ht' : get (applyStep fs (.move e.dest (.bak e.dest (firstFreeIdx fs e.dest)))) (.tmp e.tmp) = some t := by
+      rw [get_move hc]
+      have h1 : Path.tmp e.tmp ≠ Path.bak e.dest (firstFreeIdx fs e.dest) := by intro h; cases h
+      simp [h1, htd, ht]
+    rw [get_move ht', get_move hc]
+    by_cases h1 : q = e.dest
+    · simp [h1]
+    · by_cases h2 : q = .tmp e.tmp
+      · simp [h2, htd]
+      · simp [h1, h2, hc]
+
+theorem entry_append_get {fs : FS} {e : Entry} (hm : e.mode = .a) (hu : e.dest.isTmp = false) (q : Path) :
+    get (entryFs fs e) q =
+      if q = .tmp e.tmp then none
+      else if q = e.dest then some ((get fs e.dest).getD [] ++ (get fs (.tmp e.tmp)).getD [])
+      else get fs q := by
+  have htd : Path.tmp e.tmp ≠ e.dest := user_ne_tmp hu _
+  unfold entryFs entrySteps
+  simp only [hm, Mode.writeish, Mode.hasW, Mode.hasPlus, Mode.hasR, Mode.hasA, Bool.or_self, Bool.false_eq_true,
+    if_false, if_true, applySteps, List.foldl_cons, List.foldl_nil]
+  simp only [get_remove, get_append, get_touch]
+  by_cases h1 : q = .tmp e.tmp
+  · simp [h1]
+  · by_cases h2 : q = e.dest
+    · simp [h1, h2, htd]
+    · simp [h1, h2]
+
+theorem entrySteps_none_fs {fs : FS} {e : Entry} (h : entrySteps fs e = none) : entryFs fs e = fs := by
+  simp [entryFs, h]
+
+/-- the stored modes that `open` can produce are `w`-like (`w`, `w+`, `r+`, `a+`) or plain `a` -/
+theorem mode_cases {m : Mode} (h : (m.hasPlus || m.hasA || m.hasW) = true) : m.writeish = true ∨ m = .a := by
+  cases m <;> simp [Mode.hasPlus, Mode.hasA, Mode.hasW, Mode.writeish] at h ⊢
+
+theorem finalizeAll_cons (fs : FS) (e : Entry) (rest : List Entry)
+    (h : (e.mode.hasPlus || e.mode.hasA || e.mode.hasW) = true) :
+    finalizeAll fs (e :: rest) = finalizeAll (entryFs fs e) rest := by
+  have : ∃ s, entrySteps fs e = some s := by
+    rcases mode_cases h with h1 | h1
+    · simp [entrySteps, h1]
+    · simp [entrySteps, h1, Mode.writeish, Mode.hasW, Mode.hasPlus, Mode.hasR, Mode.hasA]
+  obtain ⟨s, hs⟩ := this
+  simp [finalizeAll, entryFs, hs]
+
+/-! ## complete finalisation -/
+
+/-- what `write()` needs to know about the pending table and the file system -/
+structure FinOK (fs : FS) (l : List Entry) : Prop where
+  tmp_nodup : (l.map Entry.tmp).Nodup
+  dest_nodup : (l.map Entry.dest).Nodup
+  dest_user : ∀ q ∈ l.map Entry.dest, q.isTmp = false
+  mode_ok : ∀ e ∈ l, (e.mode.hasPlus || e.mode.hasA || e.mode.hasW) = true
+  tmp_exists : ∀ k ∈ l.map Entry.tmp, get fs (.tmp k) ≠ none
+
+theorem WF.finOK {st : State} (h : WF st) : FinOK st.fs st.pending :=
+  ⟨h.tmp_nodup, h.dest_nodup, h.dest_user, h.mode_ok, h.tmp_exists⟩
+
+theorem entry_frame {fs : FS} {e : Entry} (hm : (e.mode.hasPlus || e.mode.hasA || e.mode.hasW) = true)
+    (hu : e.dest.isTmp = false) (hex : get fs (.tmp e.tmp) ≠ none) {q : Path}
+    (h1 : q ≠ e.dest) (h2 : q ≠ .tmp e.tmp) (h3 : get fs q ≠ none ∨ ∀ n, q ≠ .bak e.dest n) :
+    get (entryFs fs e) q = get fs q := by
+  rcases mode_cases hm with hw | ha
+  · obtain ⟨t, ht⟩ := Option.ne_none_iff_exists'.1 hex
+    rw [entry_write_get hw hu ht]
+    simp only [h1, h2, if_false]
+    split
+    · rename_i h
+      exfalso
+      rcases h3 with h3 | h3
+      · rw [h.1] at h3; exact h3 (firstFreeIdx_spec fs e.dest).2.1
+      · exact h3 _ h.1
+    · rfl
+  · rw [entry_append_get ha hu]
+    simp [h1, h2]
+
+theorem FinOK.tail {fs : FS} {e : Entry} {rest : List Entry} (h : FinOK fs (e :: rest)) :
+    FinOK (entryFs fs e) rest := by
+  have hn := h.tmp_nodup
+  simp only [List.map_cons, List.nodup_cons] at hn
+  have hd := h.dest_nodup
+  simp only [List.map_cons, List.nodup_cons] at hd
+  refine ⟨hn.2, hd.2, fun q hq => h.dest_user q (by simp [hq]), fun e' he' => h.mode_ok e' (by simp [he']), ?_⟩
+  intro k hk
+  have hne : k ≠ e.tmp := fun hh => hn.1 (hh ▸ hk)
+  rw [entry_frame (h.mode_ok e (by simp)) (h.dest_user e.dest (by simp)) (h.tmp_exists e.tmp (by simp))]
+  · exact h.tmp_exists k (by simp [hk])
+  · exact user_ne_tmp (h.dest_user e.dest (by simp)) k
+  · simpa [tmp_inj] using hne
+  · right; intro n hh; cases hh
+
+/-- Files that are neither a destination nor a temporary file of the pending table, and that exist or are
+not a backup name of a destination, are not touched by `write()`. -/
+theorem finalizeAll_frame : ∀ (l : List Entry) (fs : FS), FinOK fs l → ∀ q : Path,
+    (∀ e ∈ l, q ≠ e.dest ∧ q ≠ .tmp e.tmp) →
+    (get fs q ≠ none ∨ ∀ e ∈ l, ∀ n, q ≠ .bak e.dest n) →
+    get (finalizeAll fs l) q = get fs q := by
+  intro l
+  induction l with
+  | nil => intro fs _ q _ _; rfl
+  | cons e rest ih =>
+    intro fs hok q h1 h2
+    rw [finalizeAll_cons _ _ _ (hok.mode_ok e (by simp))]
+    have hfr : get (entryFs fs e) q = get fs q :=
+      entry_frame (hok.mode_ok e (by simp)) (hok.dest_user e.dest (by simp)) (hok.tmp_exists e.tmp (by simp))
+        (h1 e (by simp)).1 (h1 e (by simp)).2
+        (h2.elim Or.inl (fun h => Or.inr (h e (by simp))))
+    rw [ih (entryFs fs e) hok.tail q (fun e' he' => h1 e' (by simp [he']))]
+    · exact hfr
+    · rcases h2 with h2 | h2
+      · left; rw [hfr]; exact h2
+      · right; intro e' he'; exact h2 e' (by simp [he'])
+
+theorem mem_map_dest {l : List Entry} {e : Entry} (h : e ∈ l) : e.dest ∈ l.map Entry.dest :=
+  List.mem_map_of_mem h
+theorem mem_map_tmp {l : List Entry} {e : Entry} (h : e ∈ l) : e.tmp ∈ l.map Entry.tmp :=
+  List.mem_map_of_mem h
+
+/-- a destination finalised first is not touched by the rest of `write()` -/
+theorem finalizeAll_keeps_done {fs : FS} {e : Entry} {rest : List Entry} (hok : FinOK fs (e :: rest))
+    {fs1 : FS} (hok1 : FinOK fs1 rest) {q : Path} (hq : q.isTmp = false)
+    (hnd : q ∉ rest.map Entry.dest) (hex : get fs1 q ≠ none) :
+    get (finalizeAll fs1 rest) q = get fs1 q := by
+  apply finalizeAll_frame rest fs1 hok1 q
+  · intro e' he'
+    refine ⟨fun hh => hnd (hh ▸ mem_map_dest he'), fun hh => ?_⟩
+    rw [hh] at hq; simp [Path.isTmp] at hq
+  · exact Or.inl hex
+
+theorem finalizeAll_content_w : ∀ (l : List Entry) (fs : FS), FinOK fs l → ∀ e ∈ l, e.mode.writeish = true →
+    ∀ t, get fs (.tmp e.tmp) = some t → get (finalizeAll fs l) e.dest = some t := by
+  intro l
+  induction l with
+  | nil => intro fs _ e he; cases he
+  | cons e0 rest ih =>
+    intro fs hok e he hw t ht
+    rw [finalizeAll_cons _ _ _ (hok.mode_ok e0 (by simp))]
+    have hn := hok.tmp_nodup
+    simp only [List.map_cons, List.nodup_cons] at hn
+    have hd := hok.dest_nodup
+    simp only [List.map_cons, List.nodup_cons] at hd
+    rcases List.mem_cons.1 he with rfl | he'
+    · have hv : get (entryFs fs e) e.dest = some t := by
+        rw [entry_write_get hw (hok.dest_user e.dest (by simp)) ht]; simp
+      rw [finalizeAll_keeps_done hok hok.tail (hok.dest_user e.dest (by simp)) hd.1 (by rw [hv]; simp)]
+      exact hv
+    · apply ih (entryFs fs e0) hok.tail e he' hw t
+      rw [entry_frame (hok.mode_ok e0 (by simp)) (hok.dest_user e0.dest (by simp)) (hok.tmp_exists e0.tmp (by simp))]
+      · exact ht
+      · exact user_ne_tmp (hok.dest_user e0.dest (by simp)) _
+      · have : e.tmp ≠ e0.tmp := fun hh => hn.1 (hh ▸ mem_map_tmp he')
+        simpa [tmp_inj] using this
+      · left; rw [ht]; simp
+
+theorem finalizeAll_content_a : ∀ (l : List Entry) (fs : FS), FinOK fs l → ∀ e ∈ l, e.mode = .a →
+    ∀ t, get fs (.tmp e.tmp) = some t →
+    (get fs e.dest ≠ none ∨ ∀ e' ∈ l, ∀ n, e.dest ≠ .bak e'.dest n) →
+    get (finalizeAll fs l) e.dest = some ((get fs e.dest).getD [] ++ t) := by
+  intro l
+  induction l with
+  | nil => intro fs _ e he; cases he
+  | cons e0 rest ih =>
+    intro fs hok e he ha t ht hfree
+    rw [finalizeAll_cons _ _ _ (hok.mode_ok e0 (by simp))]
+    have hn := hok.tmp_nodup
+    simp only [List.map_cons, List.nodup_cons] at hn
+    have hd := hok.dest_nodup
+    simp only [List.map_cons, List.nodup_cons] at hd
+    rcases List.mem_cons.1 he with rfl | he'
+    · have hu := hok.dest_user e.dest (by simp)
+      have hv : get (entryFs fs e) e.dest = some ((get fs e.dest).getD [] ++ t) := by
+        rw [entry_append_get ha hu]
+        have : e.dest ≠ Path.tmp e.tmp := fun hh => user_ne_tmp hu _ hh.symm
+        simp [this, ht]
+      rw [finalizeAll_keeps_done hok hok.tail hu hd.1 (by rw [hv]; simp)]
+      exact hv
+    · have hu0 := hok.dest_user e0.dest (by simp)
+      have hne : e.dest ≠ e0.dest := fun hh => hd.1 (hh ▸ mem_map_dest he')
+      have hu := hok.dest_user e.dest (by simp [mem_map_dest he'])
+      have hsame : get (entryFs fs e0) e.dest = get fs e.dest := by
+        apply entry_frame (hok.mode_ok e0 (by simp)) hu0 (hok.tmp_exists e0.tmp (by simp)) hne
+        · intro hh; rw [hh] at hu; simp [Path.isTmp] at hu
+        · exact hfree.elim Or.inl (fun h => Or.inr (h e0 (by simp)))
+      have := ih (entryFs fs e0) hok.tail e he' ha t (by
+        rw [entry_frame (hok.mode_ok e0 (by simp)) hu0 (hok.tmp_exists e0.tmp (by simp))]
+        · exact ht
+        · exact user_ne_tmp hu0 _
+        · have : e.tmp ≠ e0.tmp := fun hh => hn.1 (hh ▸ mem_map_tmp he')
+          simpa [tmp_inj] using this
+        · left; rw [ht]; simp) (by
+        rcases hfree with h | h
+        · left; rw [hsame]; exact h
+        · right; intro e' he''; exact h e' (by simp [he'']))
+      rw [this, hsame]
+
+/-- no temporary file of the pending table survives a complete `write()` -/
+theorem finalizeAll_tmp_gone : ∀ (l : List Entry) (fs : FS), FinOK fs l → ∀ e ∈ l,
+    get (finalizeAll fs l) (.tmp e.tmp) = none := by
+  intro l
+  induction l with
+  | nil => intro fs _ e he; cases he
+  | cons e0 rest ih =>
+    intro fs hok e he
+    rw [finalizeAll_cons _ _ _ (hok.mode_ok e0 (by simp))]
+    have hn := hok.tmp_nodup
+    simp only [List.map_cons, List.nodup_cons] at hn
+    rcases List.mem_cons.1 he with rfl | he'
+    · have hu := hok.dest_user e.dest (by simp)
+      have hv : get (entryFs fs e) (.tmp e.tmp) = none := by
+        rcases mode_cases (hok.mode_ok e (by simp)) with hw | ha
+        · obtain ⟨t, ht⟩ := Option.ne_none_iff_exists'.1 (hok.tmp_exists e.tmp (by simp))
+          rw [entry_write_get hw hu ht]
+          simp [user_ne_tmp hu]
+        · rw [entry_append_get ha hu]; simp
+      rw [finalizeAll_frame rest _ hok.tail]
+      · exact hv
+      · intro e' he''
+        refine ⟨user_ne_tmp (hok.dest_user e'.dest (by simp [mem_map_dest he''])) _, ?_⟩
+        have : e.tmp ≠ e'.tmp := fun hh => hn.1 (hh ▸ mem_map_tmp he'')
+        simpa [tmp_inj] using this
+      · right; intro e' _ n hh; cases hh
+    · exact ih (entryFs fs e0) hok.tail e he'
+
 end C07
